@@ -394,7 +394,7 @@ class RSocketBase(RSocket, RSocketInternal):
             next_fragment = next_frame_source.get_next_fragment(transport.requires_length_header())
 
             if next_fragment.flags_follows:
-                self._send_queue.put_nowait(self._send_queue.get_nowait())  # cycle to next frame source in queue
+                self._cycle_fragmented_frame_source()
             else:
                 next_frame_source.get_next_fragment(
                     transport.requires_length_header())  # workaround to clean-up generator.
@@ -405,6 +405,18 @@ class RSocketBase(RSocket, RSocketInternal):
         else:
             self._send_queue.get_nowait()
             yield next_frame_source
+
+    def _cycle_fragmented_frame_source(self):
+        # cycle to the next frame source in the queue, but never let a later frame of the same stream overtake
+        source = self._send_queue.get_nowait()
+        other_streams, same_stream = [], []
+
+        while not self._send_queue.empty():
+            item = self._send_queue.get_nowait()
+            (same_stream if item.stream_id == source.stream_id else other_streams).append(item)
+
+        for item in other_streams + [source] + same_stream:
+            self._send_queue.put_nowait(item)
 
     async def _sender(self):
         try:
